@@ -3,7 +3,7 @@ Require Extraction.
 Require Import ExtrOcamlBasic.
 From Coq Require Import ZArith List.
 From Coq.Strings Require Import Byte.
-From TS Require Import Bytes Codec State Prog Ops Names Interp Asm Registry Builders SoftFork MerkleTree AMHL Assembler Tokenizer FloatCodec.
+From TS Require Import Bytes Codec State Prog Ops Names Interp Asm Registry Builders SoftFork MerkleTree TreeBuilders AMHL Assembler Tokenizer FloatCodec.
 Extraction Language OCaml.
 Extraction "tsmodel.ml"
   Byte.of_N Byte.to_N
@@ -13,6 +13,7 @@ Extraction "tsmodel.ml"
   decode encode wf_prog decompile parse_listing tokens_of push_instr print
   run_script_fork run_auth_fork mt_check nonnative_taproot_lock delegate_key_chain_lock delegate_key_chain_witness
   amhl_all amhl_release_left amhl_verify_lock_key
+  tb_prioritized tb_balanced
   assemble_r classify_bytes roundtrip_bytes get_symbols compile_text
   rstep reg_init run_trace run_plugins_of run_contract_of
   single_sig_lock single_sig_witness single_sig_lock2 single_sig_witness2 multisig_lock ts_after_lock ts_before_lock
